@@ -211,7 +211,7 @@ class C14Invalid(Harness):
     bounds_doc = "operations that cannot maintain statistics: subtraction, array arithmetic (free arithmetics on), construction from bare frequencies; empty histogram"
 
     def instances(self, tier):
-        for op in ("sub", "isub", "add_array", "mul_array", "div_array", "bare", "empty", "empty_h1"):
+        for op in ("sub", "isub", "add_array", "mul_array", "div_array", "bare", "empty", "empty_h1", "sub_free", "isub_free", "sub_array", "sub_larger_free"):
             yield f"inv-{op}", dict(op=op, M=2)
 
     def declare(self, cx, p):
@@ -244,7 +244,17 @@ class C14Invalid(Harness):
                 h -= g
             else:
                 with config.enable_free_arithmetics():
-                    if op == "add_array":
+                    if op == "sub_free":
+                        h = h - g
+                    elif op == "isub_free":
+                        h -= g
+                    elif op == "sub_larger_free":
+                        h = g - h
+                    elif op == "sub_array":
+                        h = h - arr
+                    elif op == "neg_factor_free":
+                        h = h + g * (-1)
+                    elif op == "add_array":
                         h = h + arr
                     elif op == "mul_array":
                         h = h * arr
